@@ -814,6 +814,121 @@ def build(defined, tag):
     return tables, enums
 
 
+# ---------------------------------------------------------------------------------------------------------------------
+# Dispatch conditions of the serial and distributed run-time wrappers, as TEXT.  Which class a wrapper builds is decided by a handful of
+# expressions (the `as_scalar` test of the coarsening wrapper, the enable_if conditions in front of the call_* helpers,
+# the bodies of the switch-local case macros, the Precond typedef of every case of runtime::preconditioner, the
+# forwarding overload of the solver wrapper, the specialisations of backend::*_is_supported).  They are emitted into the
+# generated table; `Amgcl/Model/RuntimeDispatch.lean` holds the expressions they are expected to be, and the generated
+# obligation `dispatch_conditions_expected` is their equality (kernel `decide`).
+DISPATCH_FILES = ["amgcl/coarsening/runtime.hpp", "amgcl/relaxation/runtime.hpp", "amgcl/solver/runtime.hpp",
+                  "amgcl/preconditioner/runtime.hpp",
+                  "amgcl/mpi/coarsening/runtime.hpp", "amgcl/mpi/relaxation/runtime.hpp", "amgcl/mpi/solver/runtime.hpp",
+                  "amgcl/mpi/direct_solver/runtime.hpp", "amgcl/mpi/partition/runtime.hpp", "amgcl/mpi/preconditioner.hpp"]
+
+
+def norm_ws(t):
+    return re.sub(r"\s+", " ", t).strip()
+
+
+def match_angle(s, i):
+    """index of the `>` closing the `<` at s[i]; parenthesised sub-expressions (which may hold comparison operators) are skipped"""
+    assert s[i] == "<"
+    depth, j, n = 0, i, len(s)
+    while j < n:
+        c = s[j]
+        if c == "(": j = match_brace(s, j, "(", ")")
+        elif c == "<": depth += 1
+        elif c == ">":
+            depth -= 1
+            if depth == 0: return j
+        elif c in ";{}": break
+        j += 1
+    raise ParseError("unbalanced template argument list near: " + s[i:i + 80])
+
+
+def enclosing_function(src, pos):
+    """name of the member function (or ctor/dtor) whose body contains `pos`: the identifier in front of the parameter list
+    of the innermost `name(...) [const] [: init-list] {` that encloses pos"""
+    best = None
+    for m in re.finditer(r"(operator\s*\(\s*\)|operator\s*<<|~?\w+)\s*\(", src[:pos]):
+        before = src[:m.start()].rstrip()
+        if before.endswith(",") or (before.endswith(":") and not before.endswith("::")): continue    # member initialiser
+        if m.group(1) in ("switch", "if", "while", "for", "return", "catch", "sizeof", "static_cast", "defined"): continue
+        try: pc = match_brace(src, m.end() - 1, "(", ")")
+        except Exception: continue
+        mm = re.match(r"\s*(const)?\s*(:[^{;]*)?\{", src[pc + 1:])
+        if not mm: continue
+        o = pc + 1 + mm.end() - 1
+        try: c = match_brace(src, o)
+        except Exception: continue
+        if o < pos < c: best = norm_ws(m.group(1))
+    return best or "?"
+
+
+def extract_dispatch():
+    items = []      # (key, text)
+    def add(key, text):
+        keys = [k for k, _ in items]
+        k2, n = key, 1
+        while k2 in keys: n += 1; k2 = "%s#%d" % (key, n)
+        items.append((k2, norm_ws(text)))
+    for rel in DISPATCH_FILES:
+        path = os.path.join(REPO, rel)
+        if not os.path.exists(path): raise ParseError("run-time wrapper file %s not found" % rel)
+        src = load(path, lambda m: False)
+        short = rel[len("amgcl/"):-len(".hpp")]
+        # enable_if conditions in front of member functions
+        for m in re.finditer(r"std::enable_if\s*<", src):
+            c = match_angle(src, m.end() - 1)
+            args = split_top(src[m.end():c])
+            fm = re.match(r"\s*::type\s+(\w+)\s*\(", src[c + 1:])
+            if not fm: fail(path, src[m.start():c + 40], "enable_if that is not the return type of a member function")
+            add("%s enable_if %s" % (short, fm.group(1)), args[0])
+        # switch-local case macros
+        for dm in re.finditer(r"^[ \t]*#[ \t]*define[ \t]+(\w+)\(\s*(\w+)\s*\)((?:.*\\\n)*.*)$", src, re.M):
+            add("%s macro %s" % (short, enclosing_function(src, dm.start())), dm.group(3).replace("\\\n", "\n"))
+        # explicit (hand-written, not macro-generated) cases and default labels of every wrapper switch: the whole statement list
+        for m in re.finditer(r"\bswitch\s*\(", src):
+            pc = match_brace(src, m.end() - 1, "(", ")")
+            bm = re.match(r"\s*\{", src[pc + 1:])
+            if not bm: continue
+            o = pc + 1 + bm.end() - 1; c = match_brace(src, o); body = src[o + 1:c]
+            if re.search(r"return\s+\w+\s*<<\s*\"", body): continue       # operator<< of the enumeration: in the enum tables
+            fn = enclosing_function(src, m.start())
+            plain = re.sub(r"^[ \t]*#[ \t]*define[ \t]+\w+\([^)]*\)(?:.*\\\n)*.*$", "", body, flags=re.M)
+            plain = re.sub(r"^[ \t]*#[ \t]*undef[ \t]+\w+[ \t]*$", "", plain, flags=re.M)
+            labels = list(re.finditer(r"\b(?:case\s+([\w:]+)|(default))\s*:(?!:)", plain))
+            for k, lm in enumerate(labels):
+                end = labels[k + 1].start() if k + 1 < len(labels) else len(plain)
+                text = plain[lm.end():end]
+                # macro invocations that follow the last explicit statement belong to the next (generated) cases
+                text = re.split(r"\b[A-Z][A-Z0-9_]+\s*\(\s*\w+\s*\)\s*;", text)[0]
+                add("%s case %s %s" % (short, fn, (lm.group(1) or "default").split("::")[-1]), text)
+        # plain statements that decide the class
+        for m in re.finditer(r"\b(?:const\s+bool\s+)?(as_scalar|block_value_type)\s*=\s*([^;]*);", src):
+            add("%s assign %s" % (short, m.group(1)), m.group(2))
+        for m in re.finditer(r"return\s*\(\s*\*\s*this\s*\)\s*\(([^;]*)\)\s*;", src):
+            add("%s forward %s" % (short, enclosing_function(src, m.start())), m.group(1))
+        # the enumerator read from the tree
+        for m in re.finditer(r":\s*(\w+)\s*\(\s*prm\.get\s*\(([^;{]*?)\)\s*\)\s*,\s*handle", src):
+            add("%s read %s" % (short, m.group(1)), m.group(2))
+    # specialisations of the support traits, anywhere in the serial library
+    for f in sorted(glob.glob(os.path.join(REPO, "amgcl", "**", "*.hpp"), recursive=True)):
+        rel = os.path.relpath(f, REPO)
+        src = load(f, lambda m: False)
+        for m in re.finditer(r"\bstruct\s+((?:coarsening|relaxation)_is_supported)\s*(<)?", src):
+            if not m.group(2):
+                mm = re.match(r"\s*:\s*std::(\w+)", src[m.end():])
+                if not mm: fail(f, src[m.start():m.start() + 80], "unrecognised primary template of a support trait")
+                add("trait %s primary" % m.group(1), mm.group(1)); continue
+            c = match_angle(src, m.end() - 1)
+            mm = re.match(r"\s*:\s*std::(\w+)", src[c + 1:])
+            if not mm: fail(f, src[m.start():c + 40], "unrecognised specialisation of a support trait")
+            add("trait %s %s" % (m.group(1), rel[len("amgcl/"):-len(".hpp")]), src[m.end():c] + " : " + mm.group(1))
+    return items
+
+
 # Python mirror of ParamTable.consistentB / EnumTable.consistentB — only to NAME the offender
 ADMISSIBLE_FOREIGN = {"mpi::cpr": ["active_rows"]}
 EXPORT_EXEMPT = {"coarsening::nullspace_params": ["cols"]}
@@ -893,7 +1008,7 @@ def enum_offenders(E):
     return out
 
 
-def emit(tables, enums):
+def emit(tables, enums, dispatch=()):
     L = []
     a = L.append
     a("-- GENERATED by tools/params_extract.py from %s — do not edit (regenerated on every `vcheck.py check C14`)" % "$AMGCL_REPO/amgcl/**/*.hpp")
@@ -949,10 +1064,16 @@ def emit(tables, enums):
     a(",\n".join(etable(E) for E in enums))
     a("]")
     a("")
+    a("/-- dispatch conditions of the serial run-time wrappers, as whitespace-normalised text (key, expression) -/")
+    a("def dispatchConditions : List (String × String) := [")
+    a(",\n".join("  (%s, %s)" % (lean_str(k), lean_str(v)) for k, v in dispatch))
+    a("]")
+    a("")
     a("end Amgcl.Generated")
     data = "\n".join(L) + "\n"
     O = ["-- GENERATED by tools/params_extract.py — do not edit.  The obligations of property C14 over the regenerated tables.",
          "import Amgcl.Generated.ParamsTableData",
+         "import Amgcl.Model.RuntimeDispatch",
          "namespace Amgcl.Generated",
          "open Amgcl.Params",
          "",
@@ -966,6 +1087,11 @@ def emit(tables, enums):
          "/-- every `switch` of every run-time wrapper (constructor, destructor, apply_pre / apply_post / apply, operator(),",
          "bytes, …) names the SAME class in its case for an enumerator (`EnumTable.dispatch`, Amgcl/Properties/C14b.lean) -/",
          "theorem enum_switches_same_class : ∀ E ∈ enumTables, E.SameClass := by decide",
+         "",
+         "set_option maxRecDepth 65536 in",
+         "/-- the expressions that decide which class a serial run-time wrapper builds are, as text, the expressions recorded",
+         "in `Amgcl/Model/RuntimeDispatch.lean` (same keys, same order, same text) -/",
+         "theorem dispatch_conditions_expected : Amgcl.Params.dispatchAgrees dispatchConditions Amgcl.Params.expectedDispatch = true := by decide +kernel",
          "",
          "end Amgcl.Generated", ""]
     return data, "\n".join(O)
@@ -996,7 +1122,15 @@ def main():
         if base_t.get(R["name"]) != tkey(R):
             print("params_extract: PARSE FAILURE: params table %s depends on AMGCL_HAVE_* macros (not modelled)" % R["name"])
             return 2
-    data, obl = emit(tables, enums)
+    try:
+        dispatch = extract_dispatch()
+    except ParseError as e:
+        print("params_extract: PARSE FAILURE (dispatch conditions of the run-time wrappers):\n  " + str(e))
+        return 2
+    if "--print-dispatch" in sys.argv:
+        for k, v in dispatch: print("  (%s, %s)," % (lean_str(k), lean_str(v)))
+        return 0
+    data, obl = emit(tables, enums, dispatch)
     write_if_changed(os.path.join(OUT_DIR, "ParamsTableData.lean"), data)
     write_if_changed(os.path.join(OUT_DIR, "ParamsTable.lean"), obl)
     bad = 0
